@@ -211,6 +211,15 @@ func genZone(r *rand.Rand, name string, configs [][]byte, small bool) ZoneSpec {
 			z.Records = append(z.Records, o)
 		}
 	}
+	if !small && n >= 20 && r.IntN(25) == 0 {
+		// a zone whose records hold long config lists (several configs with
+		// hybrid post-quantum keys): a listing page of some 70-90 KiB
+		for i := range z.Records {
+			if z.Records[i].Type == "HTTPS" {
+				z.Records[i].Value = `alpn="h2,h3" ` + echToken(r, base64.StdEncoding.EncodeToString(core.Bytes(r, 2500+r.IntN(700))))
+			}
+		}
+	}
 	if r.IntN(6) == 0 { // a name that only has non-HTTPS records
 		z.Records = append(z.Records, RecSpec{ID: hexID(r), Name: "onlya." + name, Type: "A", TTL: 300, Content: "192.0.2.99"})
 	}
@@ -301,7 +310,7 @@ func genFault(r *rand.Rand, epoch, est int) simcf.Fault {
 			f.NErr = 0
 		}
 	case x < 17:
-		f.Kind, f.Variant = simcf.KindBadJSON, r.IntN(4)
+		f.Kind, f.Variant = simcf.KindBadJSON, r.IntN(6)
 	default:
 		f.Kind = simcf.KindTransport
 		retryable = true
@@ -324,6 +333,11 @@ func estAttempts(zones []ZoneSpec, p *PubSpec) int {
 		if !seen[t.Zone] {
 			seen[t.Zone] = true
 			n += 2
+			for i := range zones {
+				if zones[i].Name == t.Zone {
+					n += min(len(httpsRecords(&zones[i]))/20, 4) // further listing pages
+				}
+			}
 		}
 		n++
 	}
@@ -357,6 +371,11 @@ func genPlan(seed uint64, idx int) *Plan {
 			n = sameLen
 		}
 		configs = append(configs, core.Bytes(r, n))
+	}
+	if r.IntN(10) == 0 {
+		// withdrawing ECH: an empty config list is published like any other
+		// (the record then holds ech="")
+		configs[r.IntN(nc)] = []byte{}
 	}
 	p.ReuseBuf = r.IntN(2) == 0
 
